@@ -81,7 +81,7 @@ def gen_program(rng: Any) -> dict[str, Any]:
     return {"backend": rng.choice(["asyncio", "trio"]), "sched_seed": rng.randrange(1 << 30), "shuffle": rng.random() < 0.5,
             "n_instances": n_inst, "n_signals": n_sig, "tasks": tasks,
             # owner instances that all compare (and hash) equal, like value objects / frozen dataclasses
-            "equal_owners": rng.random() < 0.3, "copied_owners": rng.random() < 0.25}
+            "equal_owners": rng.random() < 0.3, "copied_owners": rng.random() < 0.25, "falsy_owners": rng.random() < 0.2}
 
 
 # --------------------------------------------------------------------------- interpretation
@@ -275,6 +275,8 @@ class Run:
         if prog.get("equal_owners"):
             ns["__eq__"] = lambda a, b: type(a) is type(b)
             ns["__hash__"] = lambda a: 7
+        if prog.get("falsy_owners"):
+            ns["__len__"] = lambda a: 0  # an owner that is an empty container right now
         Src = type("Src", (), ns)
         for name in [f"s{j}" for j in range(prog["n_signals"])]:
             getattr(Src, name).__set_name__(Src, name)
@@ -510,6 +512,8 @@ def check(run: Run) -> tuple[list[dict[str, Any]], dict[str, int]]:
         inc("histories_with_equal_owners")
     if prog.get("copied_owners") and prog["n_instances"] >= 2:
         inc("histories_with_a_copied_owner")
+    if prog.get("falsy_owners"):
+        inc("histories_with_falsy_owners")
     if active_subs >= 2:
         inc("histories_with_2plus_subscribers")
     if any(t["kind"] == "subscriber" and t["style"]["kind"] == "abandon" for t in prog["tasks"]):
